@@ -407,12 +407,22 @@ def check_guarded_flatten(prog, run, rule_id):
         flattened = arg is not None and attr_call(arg, "unwrap_value") and any(
             " ".join(ast.unparse(x.func).split()).startswith("self.field_resolver(") or isinstance(x.func, ast.Name) for x in calls(arg) if x is not arg)
         # the value the field hands back is flattened as well: the guarded call sits inside a runtime.unwrap_value(...)
-        par = getattr(g, "_parent", None)
-        outer = isinstance(par, ast.Call) and attr_call(par, "unwrap_value")
-        if not outer and isinstance(par, (ast.Assign, ast.Return)):
-            outer = False if isinstance(par, ast.Return) else any(
-                isinstance(x, ast.Call) and attr_call(x, "unwrap_value") and x.args and isinstance(x.args[0], ast.Name)
-                and isinstance(par.targets[0], ast.Name) and x.args[0].id == par.targets[0].id for x in own_nodes(f.node))
+        # by path value: every execution that returns the guarded call's result returns `<runtime>.unwrap_value(<that call>)`,
+        # whatever locals and aliased bound methods the steps are named with
+        import re as _re
+        outer, seen_ret = True, False
+        gline = (g.lineno, g.col_offset)
+        for kind, st, env in gexits:
+            if kind != "return" or st.value is None or not any((c.lineno, c.col_offset) == gline for c in env.get(_bxg.CALLS, ())):
+                continue
+            v = _bxg.path_subst(st.value, _bxg.path_env(env.get(_bxg.STMTS, ()), st))
+            txt = " ".join(ast.unparse(v).split())
+            if ".map_value(" not in txt:
+                continue          # another way out (the failure handler)
+            seen_ret = True
+            if not _re.match(r"^[\w.]+\.unwrap_value\([\w.]+\.map_value\(", txt):
+                outer = False
+        outer = outer and seen_ret
         r.instance("guarded map_value receives `%s`; its result is flattened: %s" % (" ".join(ast.unparse(arg).split())[:70] if arg is not None else None, outer))
         if not flattened:
             run.report(r, "%s:Executor.resolve_field:guard-sees-unflattened-result" % EXE, f.where(g),
